@@ -31,7 +31,8 @@ def log(*a):
 
 
 def sh(cmd, **kw):
-    return subprocess.run(cmd, env=ENV, stdout=subprocess.PIPE, stderr=subprocess.STDOUT, text=True, **kw)
+    kw.setdefault("env", ENV)
+    return subprocess.run(cmd, stdout=subprocess.PIPE, stderr=subprocess.STDOUT, text=True, **kw)
 
 
 class Lock:
